@@ -26,7 +26,7 @@ class BuiltinsMixin:
             if so.kind == 'items':
                 return so.payload
             return None
-        if so is not None and not isinstance(so, tuple):
+        if so is not None:
             return None
         k = self.kind_of(v)
         if k != 'ref':
@@ -249,6 +249,9 @@ class BuiltinsMixin:
         if isinstance(so, ClassInfo):
             mc = self.metaclass_of(so)
             return smt.mk_ref((mc or builtin_class('type')).cid)
+        co = self.classobj_bound(v)
+        if co is not None:
+            return smt.mk_ref((self.metaclass_of(co) or builtin_class('type')).cid)
         k = self.kind_of(v, force=True)
         if k == 'ref':
             return smt.simp(Val.ref(smt.cls_of(Val.r(v))))
@@ -258,7 +261,7 @@ class BuiltinsMixin:
     def bi_callable(self, args, kwargs):
         v = args[0]
         so = self.static_of(v)
-        if so is not None and not isinstance(so, tuple):
+        if so is not None:
             return smt.mk_bool(isinstance(so, (Closure, BoundMethod, ClassInfo, Builtin, BoundBuiltin, Partial)))
         k = self.kind_of(v, force=True)
         if k != 'ref':
